@@ -363,6 +363,12 @@ class Context:
                 deregistered.append(old_plugin_class)
             self._plugin_class_registry[p] = plugin_class
 
+        if not plugin_class.provides[0].startswith(TEMP_DATA_TYPE_PREFIX):
+            # Plugin instances (and levels) cached from the old registry may be stale,
+            # e.g. a same-named class with the same version but another option default
+            self._fixed_plugin_cache = None
+            self._fixed_level_cache = None
+
         # If we booted a plugin from a datatype, we must boot it from other
         # datatypes it makes too, to preserve a one-to-one mapping between
         # datatypes and registered plugins.
